@@ -52,6 +52,29 @@ def run(c):
              sink=P + "apply_block_to_txhashset", via=2)
     c.r1("ok-after-apply", P + "process_block@txhashset::txhashset::extending", P + "apply_block_to_txhashset", sink="ok", via=2)
     # --- known-check gating and orphan processing
+    CP = CH + "Chain::process_block"
+    c.r2_edge("orphans-after-any-accept", CP, [(r"^Result::is_ok\(Chain::process_block_single\(", "true")], CH + "Chain::check_orphans",
+              desc="Chain::process_block: check_orphans is gated by is_ok(process_block_single) only")
+    key = c.getfn(CP)
+    if key:
+        from cfg import switch_conditions, render, reach
+        f = c.F.fns[key]
+        targets = {bi for bi, t in c.F.calls(key) if any(n.endswith("Chain::check_orphans") for n in t["names"])}
+        extra = []
+        for bi, e, arms, els in switch_conditions(f):
+            txt = render(e)
+            if txt.startswith("Result::is_ok(Chain::process_block_single("):
+                continue
+            outs = {t2 for _v, t2 in arms} | {els}
+            if len(outs) > 1 and any(reach(f, [0], targets, [(bi, t2)]) is None for t2 in outs):
+                extra.append(txt[:100])
+        d = "Chain::process_block: orphans are re-checked after every accepted block (head change or not) - no further condition guards check_orphans"
+        if not targets:
+            c.lost("orphans-unconditional", "R2", key, d, "check_orphans call not found")
+        elif extra:
+            c.record("orphans-unconditional", "R2", key, d, "violation", [], ["check_orphans additionally depends on: %s" % extra], key_detail="orphans")
+        else:
+            c.record("orphans-unconditional", "R2", key, d, "hold", [])
     c.r1("header-first", P + "process_block_header", P + "validate_header", sink=P + "update_header_head", via=2)
     c.r1("header-store-after-validate", P + "process_block_header", P + "validate_header", sink=P + "add_block_header", via=2)
 
